@@ -92,6 +92,16 @@ def observe(arg):
     return out
 
 
+def observe1(arg):
+    """observe() in a forked child: the parent must not own a jedi helper subprocess (and its
+    stderr reader thread) when jutil.pmap forks later, or the children deadlock tearing it down."""
+    import multiprocessing
+    with multiprocessing.get_context('fork').Pool(1, initializer=jutil._init_worker) as pool:
+        r = pool.apply(jutil._call, ((observe, arg),))
+    jutil.check_worker_errors([r])
+    return r
+
+
 def to_trace(o):
     ev = [{'k': 'prog', 'prog': o['prog'], 'sc': o['sc'], 'cls': o['cls']}]
     for u in sorted(o['goto']):
@@ -334,7 +344,7 @@ def run(ctx):
     quick = ctx.quick
     if ctx.replay:
         rp = ctx.replay['replay']
-        o = observe({'prog': rp['prog'], 'sc': rp['sc'], 'seed': rp['seed']})
+        o = observe1({'prog': rp['prog'], 'sc': rp['sc'], 'seed': rp['seed']})
         v = validate(ctx, [to_trace(o)], 'replay')
         judge(ctx, [o], v, 'replay')
         ctx.sample({'source': o['src'], 'goto': o.get('goto')})
@@ -359,7 +369,7 @@ def run(ctx):
         raise MachineryError('DesignOKStrict holds: the modelled deviations are unreachable (model no longer '
                              'describes the code, or the defects were fixed: update Scoping.tla)')
     st = res.trace[-1]['vars']
-    o = observe({'prog': st['prog'], 'sc': st['sc'], 'seed': 0})
+    o = observe1({'prog': st['prog'], 'sc': st['sc'], 'seed': 0})
     v = validate(ctx, [to_trace(o)], 'TLC counterexample replayed on the code')
     if not any(v[0]['rejects']):
         ctx.drift({'origin': 'counterexample', 'source': o['src'], 'note': 'design deviation not reproduced'})
